@@ -17,44 +17,7 @@ import re._parser as sre, re._constants as sc
 from sa.util import *
 from sa import rx
 L = "textx/lang.py"; MM = "textx/metamodel.py"
-class _Unsup(AnalysisError): pass
-def _eval(e, env):
-    if isinstance(e, ast.Constant): return e.value
-    if isinstance(e, ast.Name):
-        if e.id in env: return env[e.id]
-        raise _Unsup("name %s in the STRING converter" % e.id)
-    if isinstance(e, ast.IfExp): return _eval(e.body, env) if _eval(e.test, env) else _eval(e.orelse, env)
-    if isinstance(e, ast.BoolOp):
-        v = None
-        for x in e.values:
-            v = _eval(x, env)
-            if isinstance(e.op, ast.And) and not v: return v
-            if isinstance(e.op, ast.Or) and v: return v
-        return v
-    if isinstance(e, ast.UnaryOp) and isinstance(e.op, ast.Not): return not _eval(e.operand, env)
-    if isinstance(e, ast.UnaryOp) and isinstance(e.op, ast.USub): return -_eval(e.operand, env)
-    if isinstance(e, ast.BinOp) and isinstance(e.op, ast.Add): return _eval(e.left, env) + _eval(e.right, env)
-    if isinstance(e, ast.Compare) and len(e.ops) == 1:
-        a, b = _eval(e.left, env), _eval(e.comparators[0], env); op = e.ops[0]
-        if isinstance(op, ast.Eq): return a == b
-        if isinstance(op, ast.NotEq): return a != b
-        if isinstance(op, ast.In): return a in b
-        if isinstance(op, ast.NotIn): return a not in b
-    if isinstance(e, (ast.Tuple, ast.List)): return [_eval(x, env) for x in e.elts]
-    if isinstance(e, ast.Subscript):
-        v = _eval(e.value, env)
-        if isinstance(e.slice, ast.Slice):
-            lo = _eval(e.slice.lower, env) if e.slice.lower else None; hi = _eval(e.slice.upper, env) if e.slice.upper else None
-            st = _eval(e.slice.step, env) if e.slice.step else None
-            return v[lo:hi:st]
-        return v[_eval(e.slice, env)]
-    if isinstance(e, ast.Call):
-        if isinstance(e.func, ast.Attribute) and e.func.attr in ("replace", "strip", "lstrip", "rstrip", "removeprefix", "removesuffix", "startswith", "endswith", "lower", "upper", "join", "split"):
-            recv = _eval(e.func.value, env)
-            if not isinstance(recv, str): raise _Unsup("method call on a non-string")
-            return getattr(recv, e.func.attr)(*[_eval(a, env) for a in e.args])      # Python's own str semantics (trusted base)
-        if isinstance(e.func, ast.Name) and e.func.id in ("len", "str"): return {"len": len, "str": str}[e.func.id](*[_eval(a, env) for a in e.args])
-    raise _Unsup("expression outside the supported subset in the STRING converter: " + ast.unparse(e)[:80])
+from sa.pyeval import evaluate as _eval, Unsupported as _Unsup
 def _converter(mm_tree, lang_tree):
     """(param name, body expr | list of statements) of the STRING entry of _default_obj_processors"""
     init = find(mm_tree, "TextXMetaModel.__init__"); procs = None
